@@ -31,13 +31,14 @@ def parseIss (s : String) : Option Iss :=
 def parseIssued (s : String) : Option (List Iss) := (splitNonEmpty s ',').mapM parseIss
 
 def parseEv (s : String) : Option Ev :=
-  if s = "E" then some .eof else if s = "Q" then some .quiet else (bytesOfHex s).map .data
+  if s = "E" then some .eof else if s = "Q" then some .quiet else if s = "R" then some .reset
+  else (bytesOfHex s).map .data
 
 def parseEvs (s : String) : Option (List Ev) := (splitNonEmpty s ',').mapM parseEv
 
 def showErr : Err → String
   | .rxerror => "rxerror" | .enipStatus => "enip-status" | .msvcStatus => "msvc-status"
-  | .unrecognized => "unrecognized" | .unmodelled => "unmodelled" | .mismatch => "mismatch"
+  | .senderror => "senderror" | .unrecognized => "unrecognized" | .unmodelled => "unmodelled" | .mismatch => "mismatch"
   | .incomplete => "incomplete" | .partialHeld => "partial-held"
 
 def showConnErr : ConnErr → String
@@ -64,6 +65,8 @@ def showUse (fmt : String) : UseOut → String
   | .openfail n (.identify e) => s!"c{n}:identify:{showIdErr e}"
   | .ran n rs .ok => s!"c{n}:{rs.length};ok"
   | .ran n rs (.error e) => if fmt = "e" then s!"c{n}:?;{showErr e}" else s!"c{n}:{rs.length};{showErr e}"
+  | .identified n none => s!"c{n}:id;ok"
+  | .identified n (some e) => s!"c{n}:id;{showIdErr e}"
   | .refused => "refused"
 
 def sameOutcome : Except ConnErr (List Res × End) → Except ConnErr (List Res × End) → Bool
@@ -121,7 +124,7 @@ def handle : List String → Option String
   | ["prx", fmt, ident, depth, uses, conns] => do
     let ident ← if ident = "1" then some true else if ident = "0" then some false else none
     let depth ← depth.toNat?
-    let uses ← (splitOn uses '|').mapM parseIssued
+    let uses ← (splitOn uses '|').mapM fun u => if u = "I" then some Use.identity else (parseIssued u).map Use.read
     let conns ← (splitOn conns '|').mapM parseEvs
     let outs := proxyRun parseFrame ident depth conns { gateway := none, opened := 0 } uses
     pure ("|".intercalate (outs.map (showUse fmt)))
